@@ -90,9 +90,9 @@ def base_eventtype():
 
 # ---- building real objects -----------------------------------------------------------------------
 
-def new_ontology():
+def new_ontology(o=None):
     from edxml.ontology import Ontology
-    o = Ontology()
+    o = Ontology() if o is None else o
     for name, dt in OBJECT_TYPES.items():
         o.create_object_type(name, data_type=dt)
     for c in CONCEPTS:
